@@ -126,6 +126,11 @@ func (a *adapter[K]) Seq(sel []string, stop, passes int) ([][]kv, int) {
 	for p := 0; p < passes; p++ {
 		var got []kv
 		stopped := false
+		// with several passes over the same sequence value, abandoned passes (even) alternate with complete ones (odd)
+		stop := stop
+		if p%2 == 1 {
+			stop = 0
+		}
 		seq(func(k K, v int) bool {
 			if stopped {
 				late++
